@@ -406,6 +406,48 @@ def omopsoRun (cfg : Cfg) (G : Nat) (init : List Vec) (steps : List StepOracle) 
 def smpsoRun (cfg : Cfg) (G : Nat) (init : List Vec) (steps : List StepOracle) : Option RunResult :=
   swarmRun { cfg with alg := .smpso } G init steps
 
+/-! ## PSOGA: the particle-swarm half of an iteration
+
+`PSOGA.run` moves copies of the swarm with its own `update_velocity` and with `update_position`
+(velocity reversed at a violated bound), evaluates them, and then appends two children made by
+tournament selection, SBX and polynomial mutation (modelled by `Model/Selection.lean` and
+`Model/Variation.lean`; the swarm grows by two per generation and the children share their
+feature dictionaries with the selected particles – not part of this model). -/
+
+/-- PSOGA's `update_velocity`: `v = khi(c1, c2)·xᵢ + c1·r1·(bestᵢ − xᵢ) + c2·r2·(leaderᵢ − xᵢ)`,
+then `speed_constriction` (no inertia draw; `d.w` is not used). -/
+def velCoordsGA (d : VelDraw) : List Param → List Rat → List Rat → List Rat → Option (List Rat)
+  | _, [], _, _ => some []
+  | p :: ps, x :: xs, b :: bs, g :: gs =>
+    match velCoordsGA d ps xs bs gs with
+    | some r =>
+      some (Swarm.speedConstriction (d.khi * x + d.c1 * d.r1 * (b - x) + d.c2 * d.r2 * (g - x)) p.ub p.lb :: r)
+    | none => none
+  | _, _ :: _, _, _ => none
+
+def velOneGA (params : List Param) (leaders : List Particle) (p : Particle) (d : VelDraw) : Option Particle :=
+  match leaders.find? (fun l => decide (l.d.signed = d.leader.1 ∧ l.d.marker = some d.leader.2)) with
+  | none => none
+  | some g =>
+    match velCoordsGA d params p.d.vec p.bestVec g.d.vec with
+    | some v => some { p with vel := v }
+    | none => none
+
+def posOneGA (params : List Param) (p : Particle) : Option Particle :=
+  match posCoords (-1) params p.d.vec p.vel with
+  | some r => some { p with d := { p.d with vec := r.1 }, vel := r.2 }
+  | none => none
+
+/-- `update_velocity(offsprings); update_position(offsprings)` of PSOGA: the swarm after each. -/
+def psogaFlight (params : List Param) (leaders ps : List Particle) (ds : List VelDraw) :
+    Option (List Particle × List Particle) :=
+  match zipMapOpt (velOneGA params leaders) ps ds with
+  | none => none
+  | some vel =>
+    match mapOpt (posOneGA params) vel with
+    | none => none
+    | some pos => some (vel, pos)
+
 end Artap.SwarmRun
 
 /-! ## Line protocol
@@ -426,6 +468,8 @@ creation order, `prec:script:vecs` as in `c05.run`).
   the final order (positions of the evaluated list), crowding distances and front numbers in that order,
   leaders `signed:marker:crowd` (`#`), successful calls, calls; or `raise <phase>`, or `uncovered`
   followed by the first four fields (the model evaluates a position the run never evaluated).
+* `c18.psoga box|swarm|leaders|veldraws` → `ok velocities|positions|velocities after update_position`
+  or `raise` (PSOGA's `update_velocity` + `update_position` on the given copies).
 * `c18.run ALG|N|G|eps|epsA|box|signs|table|specs|init|step@step@…`, `step = veldraws!mutdraws`.
   Answer `ok evals|calls|tag:vec;…|leaders of generation 0~generation 1~…|archive` (leaders and
   archive as `signed:marker` joined by `#`) or `raise` / `uncovered`.
@@ -639,6 +683,16 @@ def handle (op : String) (arg : String) : Option String :=
                     showList toString (h.swarm.map (·.front)),
                     showLeaders h.leaders,
                     toString (Nsga2.okCalls s1.world), toString s1.world.log.length])
+  | "c18.psoga", [bx, sw, ld, vd] => do
+    let box ← Variation.parseParams? bx
+    let swarm ← parseParticles? 7 0 (splitNE sw "#")
+    let leaders ← parseParticles? 7 swarm.length (splitNE ld "#")
+    let vel ← allSome ((splitNE vd "#").map parseVelDraw?)
+    match psogaFlight box leaders swarm vel with
+    | none => some "raise"
+    | some r =>
+      some (String.intercalate "|" ["ok " ++ showMat showRat (r.1.map (·.vel)),
+        showMat showRat (r.2.map (·.d.vec)), showMat showRat (r.2.map (·.vel))])
   | "c18.run", [al, n, g, e, ea, bx, sg, tb, sp, ini, st] => do
     let alg ← parseAlg? al
     let n ← parseNat? n
